@@ -299,6 +299,10 @@ func runConn(svc services.Servicer, sp Spec, idx int) (ob ConnObs, gone bool) {
 		for _, s := range sp.Conn.Segs {
 			d = append(d, s...)
 		}
+		// exactly as listener/socket/socket.go builds it: buf[:n] of a receive buffer - for a
+		// zero-length datagram an empty but non-nil slice
+		rbuf := make([]byte, 65536)
+		d = rbuf[:copy(rbuf, d)]
 		m := &udpMeter{Conn: &listener.DummyUDPConn{Buffer: d, Laddr: &net.UDPAddr{IP: lip, Port: 53}, Raddr: &net.UDPAddr{IP: rip, Port: 40000},
 			Fn: func(b []byte, addr *net.UDPAddr) (int, error) { return len(b), nil }}}
 		base, cnt = m, &m.cnt
